@@ -29,14 +29,13 @@ import (
 // to write a table with no data.
 // This changes the checksum in the "head" table in place.
 func Write(w io.Writer, scalerType uint32, tables map[string][]byte) (int64, error) {
-	numTables := len(tables)
-
-	tableNames := make([]string, 0, numTables)
+	tableNames := make([]string, 0, len(tables))
 	for name, data := range tables {
 		if data != nil && len(name) == 4 {
 			tableNames = append(tableNames, name)
 		}
 	}
+	numTables := len(tableNames)
 
 	// sort the table names in the recommended order
 	sort.Slice(tableNames, func(i, j int) bool {
